@@ -589,6 +589,7 @@ func ammodecExtra(t *tr) string {
 	m, hi := x.setup(p, uriLine)
 	w("/-- `uriDecoder.readLine`: method given to `Ammo.Setup` -/\ndef uriMethod : List UInt8 := %s\n\n", m)
 	w("/-- `uriDecoder.readLine`: where the header map given to `Ammo.Setup` comes from (every value the variable is given) -/\ndef uriHeaderOrigin : HdrOrigin := %s\n\n", hi)
+	w("/-- `uriDecoder.Scan`: what happens to the header accumulator (the field passed to `readLine`) when the file wraps around -/\ndef uriPassReset : PassReset := %s\n\n", x.passReset(p, "uriDecoder.Scan", uriScan, "readLine"))
 
 	// ---- uripost
 	upScan, upBlock, upNew := ammodecFunc(p, "uripostDecoder", "Scan"), ammodecFunc(p, "uripostDecoder", "readBlock"), ammodecFunc(p, "", "newURIPostDecoder")
@@ -603,6 +604,7 @@ func ammodecExtra(t *tr) string {
 	m, hi = x.setup(p, upBlock)
 	w("def uripostMethod : List UInt8 := %s\n\n", m)
 	w("/-- `uripostDecoder.readBlock`: the same -/\ndef uripostHeaderOrigin : HdrOrigin := %s\n\n", hi)
+	w("/-- `uripostDecoder.Scan`: the same for the field passed to `readBlock` -/\ndef uripostPassReset : PassReset := %s\n\n", x.passReset(p, "uripostDecoder.Scan", upScan, "readBlock"))
 
 	// ---- raw
 	rawScan, rawNew := ammodecFunc(p, "rawDecoder", "Scan"), ammodecFunc(p, "", "newRawDecoder")
